@@ -95,7 +95,7 @@ Record rst := mkR {
   q1 : bool; q2 : bool; q3 : bool; q5 : bool; q6 : bool }.
 
 Definition eff_step (s : Z) : Z := if s <=? 0 then x_uuid_DefaultSeqStep else s.
-Definition fits (c st : Z) : bool := (- 2 ^ 63 <=? c * st) && ((c + 1) * st <? 2 ^ 63) && (- 2 ^ 63 <=? c) && (c + 1 <? 2 ^ 63).
+Definition fits (c st : Z) : bool := (- 2 ^ 63 <=? c * st) && ((c + 1) * st + 1 <? 2 ^ 63) && (- 2 ^ 63 <=? c) && (c + 1 <? 2 ^ 63).
 
 (* the position from which the generator counts: its last id, or the start of its segment *)
 Definition pos_of (sl : ref_slot) : option Z :=
